@@ -20,8 +20,14 @@ const c20Defs = `package p
 import (
 	"unsafe"
 
+	"example.org/ext/xconf"
 	"github.com/google/wire"
 )
+
+// types of the user's package defined over struct types of a third-party module
+type XDup xconf.Dup
+
+type XT xconf.T
 
 type S struct {
 	A int
@@ -220,15 +226,15 @@ var c20Item = []string{
 	"wire.Binding{}", "wire.ProvidedValue{}", "wire.StructProvider{}", "wire.StructFields{}", "[]interface{}{NewS}", "interface{}(NewS)", "any(NewS)", "I(nil)", "error(nil)", "C{}", "ps", "one", "iota_",
 	"wire.NewSet(NewS, nil)", "wire.NewSet(nil)", "wire.NewSet(x)", "wire.NewSet(wire.Value)", "wire.Build(NewS)", "wire.NewSet(wire.Build(NewS))", "(wire.NewSet)(NewInt)", "(wire.NewSet(NewInt))",
 	"wire.NewSet(args...)", "wire.NewSet(names)", "conf.Default", "conf.Const", "conf.New", "conf.T{}", "conf.NewT", "conf.PT", "conf.Fn", "os.Stdin", "fmt.Sprint", "errors.New", "conf.T.Method", "conf.Default2", "os.Exit", "errors.Is", "os.Args", "fmt.Errorf", "conf.Bad", "psets.BadSet", "psets.OKSet", "psets.Nested", "pair", "NewSFrom", "fieldName", "fieldName()", "len", "new", "make([]int, 1)", "S.M", "struct{ A int }{1}", "[1]S{}", "chan int(nil)", "(chan int)(nil)", "conf.Dup{}", "&conf.Dup{}", "conf.Unexp{}",
-	"xconf.NewT", "xconf.T{}", "xconf.Dup{}", "&xconf.Dup{}", "xconf.Unexp{}", "xconf.Bad", "xconf.Bad2", "xconf.OKSet", "xconf.BadSet", "xconf.SuperSet", "xconf.DupSet", "xconf.BadBind", "xconf.BadValue", "xconf.BadFields", "xconf.TwoSet", "xconf.NotASet", "xconf.Unknown", "xconf.Default", "xconf.Fn",
+	"XDup{}", "&XDup{}", "XT{}", "xconf.NewT", "xconf.T{}", "xconf.Dup{}", "&xconf.Dup{}", "xconf.Unexp{}", "xconf.Bad", "xconf.Bad2", "xconf.OKSet", "xconf.BadSet", "xconf.SuperSet", "xconf.DupSet", "xconf.BadBind", "xconf.BadValue", "xconf.BadFields", "xconf.TwoSet", "xconf.NotASet", "xconf.Unknown", "xconf.Default", "xconf.Fn",
 	"wire.NewSet(xconf.SuperSet)", "wire.NewSet(xconf.OKSet, xconf.TwoSet)",
 }
 
-var c20StructArg0 = []string{"new(One)", "new(Ünit)", "new(xconf.Dup)", "new(xconf.Unexp)", "new(xconf.T)", "new(conf.Dup)", "new(conf.Unexp)", "new(conf.T)", "new(conf.G[int])", "new(S)", "(new(S))", "&S{}", "(*S)(nil)", "new(struct{ A int })", "new(G[int])", "new(Pair[int, string])", "new(int)", "new(*S)", "nil", "S{}", "new(I)", "new(F)", "ps", "NewPS()", "new(T)", "new(C)", "&struct{ A int }{}", "x", "new(wire.ProviderSet)", "new([]S)", "new(map[string]S)", "interface{}(new(S))", "any(nil)", "Gen[*S]()"}
+var c20StructArg0 = []string{"new(XDup)", "new(XT)", "new(One)", "new(Ünit)", "new(xconf.Dup)", "new(xconf.Unexp)", "new(xconf.T)", "new(conf.Dup)", "new(conf.Unexp)", "new(conf.T)", "new(conf.G[int])", "new(S)", "(new(S))", "&S{}", "(*S)(nil)", "new(struct{ A int })", "new(G[int])", "new(Pair[int, string])", "new(int)", "new(*S)", "nil", "S{}", "new(I)", "new(F)", "ps", "NewPS()", "new(T)", "new(C)", "&struct{ A int }{}", "x", "new(wire.ProviderSet)", "new([]S)", "new(map[string]S)", "interface{}(new(S))", "any(nil)", "Gen[*S]()"}
 
 var c20Names = []string{`"V", "V"`, `"A", "A", "A"`, `"B", "B"`, "", `"A"`, `"*"`, "k", "star", "names...", "`A`", `"A", "A"`, `""`, `"a"`, `"A" + ""`, "string(k)", `"A", "B"`, `"B", "A"`, `"*", "A"`, `"A", "*"`, `"V"`, `"Key"`, `"C"`, "fieldName()", `k, "B"`, `"\x41"`, `"A "`, "[]string{\"A\"}...", "nil...", `"*", "*"`, "`*`"}
 
-var c20FieldsArg0 = []string{"new(One)", "new(*Ünit)", "new(xconf.Dup)", "new(*xconf.Unexp)", "new(*xconf.T)", "new(conf.Dup)", "new(*conf.Unexp)", "new(conf.T)", "new(*conf.T)", "new(S)", "new(*S)", "new(**S)", "new(*int)", "new(int)", "nil", "&S{}", "new(G[int])", "new(*G[int])", "new(struct{ A int })", "new(*struct{ A int })", "new(I)", "ps", "&ps", "new(T)", "new(*T)", "(**S)(nil)", "new(Pair[int, string])", "new([]S)", "x", "any(new(S))"}
+var c20FieldsArg0 = []string{"new(XDup)", "new(*XT)", "new(One)", "new(*Ünit)", "new(xconf.Dup)", "new(*xconf.Unexp)", "new(*xconf.T)", "new(conf.Dup)", "new(*conf.Unexp)", "new(conf.T)", "new(*conf.T)", "new(S)", "new(*S)", "new(**S)", "new(*int)", "new(int)", "nil", "&S{}", "new(G[int])", "new(*G[int])", "new(struct{ A int })", "new(*struct{ A int })", "new(I)", "ps", "&ps", "new(T)", "new(*T)", "(**S)(nil)", "new(Pair[int, string])", "new([]S)", "x", "any(new(S))"}
 
 var c20BindArg0 = []string{"new(xconf.I)", "new(conf.I)", "new(I)", "new(S)", "nil", "(*I)(nil)", "new(*I)", "I(nil)", "new(interface{ M() })", "new(any)", "new(error)", "x", "new(F)", "new(G[int])", "&ps", "new(int)"}
 var c20BindArg1 = []string{"new(xconf.C)", "new(*xconf.T)", "new(xconf.T)", "new(conf.C)", "new(*conf.T)", "new(C)", "new(*S)", "new(S)", "C{}", "nil", "(*C)(nil)", "new(I)", "new(**S)", "new(G[int])", "&C{}", "new(*C)", "x", "new(*G[int])", "new(Pair[int, string])", "new(F)", "ps", "new(int)", "NewC()"}
